@@ -799,9 +799,65 @@ var reBadRow = regexp.MustCompile(`<<"BADROW", "([^"]+)", "([^"]+)", (\d+)>>`)
 var isoRows []isoRow
 
 func judge(rep *mbt.Report, irRows []irRow, vectors []irVector, prs []*parseRow) {
-	t := mbt.MustTLC(mbt.TLCOpts{Spec: "MetadataTrace", Cfg: "MetadataTrace.cfg", Workers: 8, Timeout: 20 * time.Minute,
-		Data: map[string][]byte{"md_ir_rec.ndjson": mbt.NDJSONBytes(irRows), "md_parse_rec.ndjson": mbt.NDJSONBytes(prs), "md_iso_rec.ndjson": mbt.NDJSONBytes(isoRows)}})
-	defer t.Cleanup()
+	// The recording is judged in batches (one TLC run each, three at a time): TLC holds the whole
+	// deserialised file in memory, and 20 000 parse rows at once made it crawl.
+	type batch struct {
+		ir     []irRow
+		prs    []*parseRow
+		iso    []isoRow
+		irOff  int
+		prsOff int
+		isoOff int
+		t      *mbt.TLCResult
+	}
+	var batches []*batch
+	const irChunk, prsChunk, isoChunk = 30000, 4000, 10000
+	for o := 0; o < len(irRows); o += irChunk {
+		e := o + irChunk
+		if e > len(irRows) {
+			e = len(irRows)
+		}
+		batches = append(batches, &batch{ir: irRows[o:e], irOff: o})
+	}
+	for o := 0; o < len(prs); o += prsChunk {
+		e := o + prsChunk
+		if e > len(prs) {
+			e = len(prs)
+		}
+		batches = append(batches, &batch{prs: prs[o:e], prsOff: o})
+	}
+	for o := 0; o < len(isoRows); o += isoChunk {
+		e := o + isoChunk
+		if e > len(isoRows) {
+			e = len(isoRows)
+		}
+		batches = append(batches, &batch{iso: isoRows[o:e], isoOff: o})
+	}
+	sem := make(chan struct{}, 3)
+	var wg sync.WaitGroup
+	for _, bt := range batches {
+		wg.Add(1)
+		go func(bt *batch) {
+			defer wg.Done()
+			sem <- struct{}{}
+			defer func() { <-sem }()
+			bt.t = mbt.MustTLC(mbt.TLCOpts{Spec: "MetadataTrace", Cfg: "MetadataTrace.cfg", Workers: 4, Timeout: 20 * time.Minute,
+				Data: map[string][]byte{"md_ir_rec.ndjson": mbt.NDJSONBytes(bt.ir), "md_parse_rec.ndjson": mbt.NDJSONBytes(bt.prs), "md_iso_rec.ndjson": mbt.NDJSONBytes(bt.iso)}})
+		}(bt)
+	}
+	wg.Wait()
+	rep.TracesValidated += len(irRows) + len(prs) + len(isoRows)
+	for _, bt := range batches {
+		judgeBatch(rep, bt.t, bt.ir, bt.prs, bt.iso, vectors, bt.irOff)
+		bt.t.Cleanup()
+	}
+}
+
+func judgeBatch(rep *mbt.Report, t *mbt.TLCResult, irRows []irRow, prs []*parseRow, isoRows []isoRow, allVectors []irVector, irOff int) {
+	var vectors []irVector
+	if allVectors != nil {
+		vectors = allVectors[irOff : irOff+len(irRows)]
+	}
 	if len(t.Violated) > 0 {
 		mbt.Infra("MetadataTrace: unexpected violation %v", t.Violated)
 	}
@@ -809,7 +865,6 @@ func judge(rep *mbt.Report, irRows []irRow, vectors []irVector, prs []*parseRow)
 		mbt.Infra("MetadataTrace consumed %d rows of %d", t.Distinct-1, len(irRows)+len(prs)+len(isoRows))
 	}
 	rep.AddTLC(t)
-	rep.TracesValidated += len(irRows) + len(prs) + len(isoRows)
 	for _, m := range reBadRow.FindAllStringSubmatch(t.Output, -1) {
 		file, law := m[1], m[2]
 		ri, _ := strconv.Atoi(m[3])
